@@ -447,8 +447,10 @@ def c09(tier, seed):
         g = groups[k]
         rnd.shuffle(g)
         for i in range(0, len(g), 60):
-            jobs.append(([s["sc"] for s in g[i : i + 60]], [s["expect"] for s in g[i : i + 60]]))
+            # every third pack goes through the public client (up to its get_units call) instead of the component
+            jobs.append(([s["sc"] for s in g[i : i + 60]], [s["expect"] for s in g[i : i + 60]], len(jobs) % 3 == 0))
     results = common.pool().map(eligibility.job, jobs, chunksize=4)
+    run.witness("packs_through_the_public_client", sum(1 for j in jobs if j[2]))
     for job, bads in zip(jobs, results):
         run.cov["scenarios_replayed_into_impl"] += len(job[0])
         for b in bads:
@@ -481,6 +483,7 @@ def c09(tier, seed):
             "turnout_factor_exactly_at_lower_limit",
             "expected_vote_exactly_at_threshold",
             "zero_denominator",
+            "packs_through_the_public_client",
             "turnout_outlier_model_consulted",
             "margin_outlier_model_consulted",
             "outlier_model_on_but_too_few_units",
